@@ -4,7 +4,7 @@ import os, re, time, multiprocessing as mp
 from .. import common as C
 from . import mirdump
 from .program import Program
-from .domcheck import shapes
+from .domcheck import shapes, tree_shapes
 from . import domops
 from .interp import Stats
 
@@ -63,7 +63,7 @@ def make_cases(ops, cfgname, nA, nB, order_mode, want, budget, builder_sizes=(1,
         for shA in shapes(nA):
             if op == 'insert':
                 for nb in builder_sizes:
-                    for shB in shapes(nb):
+                    for shB in tree_shapes(nb):
                         cases.append((op, shA, shB, cfgname, order_mode, want, budget))
             elif op in TWO_DOM:
                 for shB in shapes(nB):
